@@ -145,6 +145,15 @@ def initializeDevice : M Unit := do
   let _ ← getSignerParameters
   pure ()
 
+/-- `TCPServer.run` up to `serve_forever`, with its exception map, as `ManagerRunner.run`
+    sees it: "served" | "error" (TCPServerError) | "interrupted" | the escaping exception -/
+def bringUp : M String := do
+  match ← M.attempt initializeDevice with
+  | .ok _ => pure "served"
+  | .error .protoError => pure "error"
+  | .error .protoInterrupt => pure "interrupted"
+  | .error e => pure ("crash:" ++ e.name)
+
 /-- `ensure_connection` -/
 def ensureConnection : M Unit := do
   if !(← getWorld).commIssue then pure ()
